@@ -18,6 +18,9 @@ CLAIMED = {
  "C05": ("must-precede / must-follow ordering on SSA CFGs, guard-dominance, fsync must-pass-through over the resolved call chain, single-batch writer discipline, publish-last ordering over the VTA call tree (writer order vs the recovery reader's dereference chain)",
          "Decides the write-ahead, fsync-before-act, save→end-marker→apply and atomic-batch shapes on every path, the catch-up replay guards, and whether every record recovery dereferences from the head height is written before the head marker (flags the consensus-state record as an open finding). Does not decide post-crash store consistency or double-sign freedom over crash points.",
          "DESIGN.md §4 C05"),
+ "C07": ("ownership (copy-on-write) classification of every store into a trie node, ordering copy-then-fresh-flags, guard-dominance of the node constructions of insert/delete (shape rules), sibling agreement of node encoder/decoder/hasher/stack trie and compact-key tables, value-identity checks of proof construction and verification",
+         "Decides structural necessary conditions of a canonical authenticated map: no shared node or key is modified in place, every node created or copied by insert/delete is dirty without a cached hash, unchanged subtrees are returned as they were, delete never leaves a short node above a short node or a one-child branch, empty values delete, the root changes only after success, the 17/2-item codec with compact keys and the 32-byte embedding rule agree across encoder, decoder, hasher and stack trie, Prove stores every element under the hash of its encoding and VerifyProof follows exactly the wanted hash. Does not decide get-after-update, order independence, equality with a reference or the stack trie, reopen equality, or rejection of tampered proofs by VerifyProof itself (it trusts a hash-keyed proof store).",
+         "DESIGN.md §4 C07"),
  "C08": ("effect analysis (field mutation sets through callees and map/slice parameters) comparing what each journalling operation changes with what the appended entry's revert writes; def-before-mutation ordering of recorded previous values; who-may-write classification of every writer of journalled fields; operand tables of the revert methods; guard/ordering rules of the undo loop and revision stack; alias check of Copy/deepCopy",
          "Decides the structural necessary conditions of exact revert: every change made by a journalling operation is in the write set of the entry it appends, previous values are captured before being overwritten and handed to the matching setter, journalled fields have no writer outside reverts, journalling operations, their setters and a frozen lifecycle table, the undo loop runs newest-first down to and including the snapshot index with symmetric dirty counting, the revision stack is truncated, and copies share no mutable container. Does not decide equality of reverted observables over all histories, root equality with a fresh replay, or trie/snapshot read-back.",
          "DESIGN.md §4 C08"),
